@@ -677,6 +677,9 @@ def book_features():
     F["empty-row"] = [("S" + v(), [[v(), v()], ["", ""], [v(), v()]])]
     F["multi-word-cell"] = [("S" + v(), [[v() + " " + v(), v()], [v(), v()]])]
     F["cell-comment"] = [("S" + v(), [[v(), v()], [v(), v()]], {(1, 1): x("COM")})]
+    F["one-row-sheet"] = [("S" + v(), [[v(), v()], [v(), v()]]), ("S" + v(), [[v(), v(), v()]]), ("S" + v(), [[v()], [v()]])]
+    F["one-cell-sheet"] = [("S" + v(), [[v()]])]
+    F["empty-sheet-between"] = [("S" + v(), [[v()], [v()]]), ("S" + v(), []), ("S" + v(), [[v()], [v()]])]
     # falsy values are values: a closing row of zeros / FALSE is content (cell = (python value, ods value-type, ods value, expected text))
     zero, false = (0, "float", "0", "0"), (False, "boolean", "false", None)
     F["zero-and-false-last-row"] = [("S" + v(), [[v(), v()], [v(), (7, "float", "7", "7")], [zero, false]])]
@@ -687,11 +690,12 @@ def book_features():
 def book_spec(sheets, fmt="xlsx"):
     def shown(c):
         if isinstance(c, tuple):
-            return c[3] if c[3] is not None else (str(c[0]) if fmt == "xlsx" else c[2])
+            return c[3] if c[3] is not None else (str(c[0]) if fmt in ("xlsx", "xls") else c[2])
         return c
     out = []
     for sh in sheets:
-        out.append(sh[0])
+        if fmt != "xls":            # .xls: the full text is the sheet texts (names are on the units)
+            out.append(sh[0])
         out.extend(" ".join(shown(c) for c in row) for row in sh[1])
     return "\n".join(out)
 
@@ -737,8 +741,52 @@ def render_ods(sheets):
     return _zip({"mimetype": mt, "content.xml": content, "META-INF/manifest.xml": ODF_MANIFEST % mt})
 
 
+class _XlsDoc(io.BytesIO):
+    """A minimal compound file with a Workbook stream; the parsed workbook (xlrd) is supplied as a fake with real xlrd cells,
+    because no BIFF writer is available: the library's own code runs from read_xls on."""
+    fake_book = None
+
+
+def render_xls(sheets):
+    import xlrd
+    from xlrd.sheet import Cell
+    from replay.C08 import biff, ole_bytes
+    for sh in sheets:
+        if len(sh) > 2 and sh[2]:
+            raise Unsupported("cell comments of .xls are not parsed by xlrd")
+
+    def mk_cell(v):
+        if v == "":
+            return Cell(xlrd.XL_CELL_EMPTY, "")
+        if isinstance(v, tuple):
+            return Cell(xlrd.XL_CELL_BOOLEAN, int(v[0])) if isinstance(v[0], bool) else Cell(xlrd.XL_CELL_NUMBER, float(v[0]))
+        return Cell(xlrd.XL_CELL_TEXT, v)
+
+    class Sheet:
+        def __init__(self, name, grid):
+            self.name, self.grid = name, grid
+            self.nrows, self.ncols = len(grid), max([len(r) for r in grid] + [0])
+
+        def cell(self, r, c):
+            row = self.grid[r]
+            return mk_cell(row[c] if c < len(row) else "")
+
+    class Book:
+        datemode = 0
+
+        def __init__(self):
+            self._sheets = [Sheet(sh[0], sh[1]) for sh in sheets]
+
+        def sheets(self):
+            return self._sheets
+    doc = _XlsDoc(ole_bytes([("Workbook", biff([(0x0809, b"\0" * 16), (0x000A, b"")]))]))
+    doc.fake_book = Book()
+    return doc
+
+
 BOOKS = {
     "xlsx": ("ms_modern.xlsx_extractor", "read_xlsx", render_xlsx),
+    "xls": ("ms_legacy.xls_extractor", "read_xls", render_xls),
     "ods": ("open_office.ods_extractor", "read_ods", render_ods),
 }
 
@@ -749,7 +797,17 @@ def _read(modname, fn, data, ext):
     import logging
     logging.disable(logging.CRITICAL)
     m = importlib.import_module("sharepoint2text.parsing.extractors." + modname)
-    res = list(getattr(m, fn)(data, path=f"doc.{ext}"))
+    fake = getattr(data, "fake_book", None)
+    if fake is not None:
+        import xlrd
+        real = xlrd.open_workbook
+        xlrd.open_workbook = lambda *a, **k: fake
+        try:
+            res = list(getattr(m, fn)(data, path=f"doc.{ext}"))
+        finally:
+            xlrd.open_workbook = real
+    else:
+        res = list(getattr(m, fn)(data, path=f"doc.{ext}"))
     return "\n".join(r.get_full_text() for r in res)
 
 
